@@ -21,7 +21,7 @@ META = {
              "deviation attribute compared with the reference expressions; plus analyzer results on a small lattice; every grid "
              "point is non-trivial (all reference values are non-zero except at g2=1) and distinct"),
     "exhaustive": True,
-    "bounds": {"quick": "g2 in {1e-6,1e-3,.01,.1,.3,.5,.7,.9,.99,1-1e-9,1}; n in {1,2,3,5,10,100,1e4,1e6}; XX,YY in {1e-6,1,1e6}; arg in {0,1,3,-2}; fs {1,1000}; S2 {.3,40}",
+    "bounds": {"quick": "g2 in {1e-6,1e-3,.01,.1,.3,.5,.7,.9,.99,1-1e-9,1}; n in {1,2,3,5,10,100,1e4,1e6}; XX,YY in {1e-200,1e-6,1,1e6,1e200}; arg in {0,1,3,-2}; fs {1,1000}; S2 {.3,40}",
                "thorough": "same grid plus g2 on 41 log/linear points and n on 1..64"},
     "assumptions": ["the statistical clause (Gaussian data, spread over realisations) is not decided by enumeration and not claimed",
                     "coherence input of the reference expressions is the result's own coh (whose correctness is C09/C20)"],
@@ -63,7 +63,7 @@ def build_result(fs, S2, iscsd, pts):
     XX = np.array([p[2] for p in pts])
     YY = np.array([p[3] for p in pts]) if iscsd else XX.copy()
     arg = np.array([p[4] for p in pts])
-    XY = np.sqrt(g2 * XX * YY) * np.exp(1j * arg) if iscsd else XX.astype(complex)
+    XY = np.sqrt(g2) * np.sqrt(XX) * np.sqrt(YY) * np.exp(1j * arg) if iscsd else XX.astype(complex)
     d = {"f": np.arange(1, m + 1, dtype=float), "r": np.ones(m), "b": np.arange(1, m + 1, dtype=float),
          "L": np.full(m, 16, dtype=np.int64), "K": n.copy(), "navg": n.copy(), "D": [np.arange(1)] * m,
          "O": np.zeros(m), "XX": XX, "YY": YY, "XY": XY, "S12": np.full(m, 9.0), "S2": np.full(m, S2),
@@ -73,7 +73,7 @@ def build_result(fs, S2, iscsd, pts):
 
 def _grid(shard):
     fs, S2, iscsd = shard["fs"], shard["S2"], shard["iscsd"]
-    mags = (1e-6, 1.0, 1e6)
+    mags = (1e-200, 1e-6, 1.0, 1e6, 1e200)
     pts = list(itertools.product(shard["g2"], shard["nn"], mags, mags if iscsd else (1.0,), (0.0, 1.0, 3.0, -2.0) if iscsd else (0.0,)))
     if shard.get("only") is not None:
         pts = [tuple(shard["only"])]
@@ -165,7 +165,7 @@ def _ana(shard):
     out = {"evals": 0, "nontrivial": 0, "failures": [], "samples": [], "extra": {}}
     N, fs = 96, 3.0
     x, y = ana.data_for(shard["mode"], N, "id1", "id2", shard["seed"])
-    for olap, order in itertools.product((0.0, 0.5, 0.75), (-1, 0, 2)):
+    for olap, order in itertools.product((0.0, 0.5, 0.75, 0.95), (-1, 0, 2)):
         an = ana.make_analyzer(ana.as_input(x, y), fs, olap=olap, order=order, Jdes=12, Kdes=5, scheduler=shard["sched"],
                                backend=shard["backend"], win="hann")
         r = an.compute()
@@ -175,6 +175,9 @@ def _ana(shard):
         for j in (0, len(nD) // 2, len(nD) - 1):
             sb = an.compute_single_bin(float(pf["f"][j]), L=int(pf["L"][j]))
             results.append((sb, np.array([len(sb._data["D"][0])], dtype=float), f"single[{j}]"))
+        for Ls in (2, 3, 10, N):  # short segments: more requested averages than start positions at high overlap
+            sb = an.compute_single_bin(0.4, L=Ls)
+            results.append((sb, np.array([len(sb._data["D"][0])], dtype=float), f"single[L={Ls}]"))
         for rr, nd, tag in results:
             out["evals"] += len(nd)
             out["nontrivial"] += int(np.count_nonzero(nd > 1))
